@@ -756,6 +756,7 @@ func runC20(c *Ctx) {
 	}
 	c20RoundE(c, c.W)
 	c20QueueCap(c, c.W)
+	c20DirtyMerge(c, c.W)
 }
 
 // c20Dropped: in promoteExecutables / demoteUnexecutables / truncate*, every
@@ -1059,5 +1060,69 @@ func c20QueueCap(c *Ctx, w *World) {
 	}
 	if n == 0 {
 		c.Undecided("core#demoting-functions", token.NoPos, "no function that hands transactions from a pending list to enqueueTx found (demoteUnexecutables and removeTx are expected)")
+	}
+}
+
+// c20DirtyMerge (L14): coalesced promotion requests are merged, not replaced.
+func c20DirtyMerge(c *Ctx, w *World) {
+	c.Rule("C20.L14", "GATE", "what the pool reports as pending is what is executable: scheduleReorgLoop coalesces the promotion requests that arrive while a run is busy — the accumulated set of dirty accounts is replaced by an incoming request only where the accumulated set is known to be nil; otherwise the request is merged into it. Replacing a non-nil set drops the accounts of the earlier requests: their executable transactions stay queued after the submitter was told they are in, until some later head reset")
+	c.Min(1)
+	sl := w.Fn("core", "TxPool", "scheduleReorgLoop")
+	c.sawFunc(fname(sl))
+	asT := w.Named("core", "accountSet")
+	n := 0
+	var phis []*ssa.Phi
+	for _, in := range allInstrs(sl) {
+		if ph, ok := in.(*ssa.Phi); ok && types.Identical(deref(ph.Type()), asT) {
+			phis = append(phis, ph)
+		}
+	}
+	isPhi := func(v ssa.Value) bool {
+		for _, p := range phis {
+			if stripConvNoBind(v) == ssa.Value(p) {
+				return true
+			}
+		}
+		return false
+	}
+	for _, ph := range phis {
+		for i, e := range ph.Edges {
+			ev := stripConvNoBind(e)
+			if isPhi(ev) {
+				continue
+			}
+			if cv, isC := ev.(*ssa.Const); isC && cv.IsNil() {
+				continue
+			}
+			// an incoming request (received from a channel / select)
+			if !derivesFrom(ev, func(x ssa.Value) bool {
+				if _, isSel := x.(*ssa.Select); isSel {
+					return true
+				}
+				if u, isU := x.(*ssa.UnOp); isU && u.Op == token.ARROW {
+					return true
+				}
+				return false
+			}) {
+				continue
+			}
+			n++
+			c.sites++
+			pred := ph.Block().Preds[i]
+			knownNil := false
+			for _, a := range atomsOf(factsAt(pred)) {
+				if a.Kind == "isnil" && a.Truth && isPhi(a.X) {
+					knownNil = true
+				}
+			}
+			pos := ph.Pos()
+			if t := pred.Instrs[len(pred.Instrs)-1]; t.Pos().IsValid() {
+				pos = t.Pos()
+			}
+			c.Check(fmt.Sprintf("%s#dirty-set-replaced-%d-only-when-nil", fname(sl), n), pos, knownNil, ifelse(knownNil, "the accumulated set is nil where the request takes its place", "an incoming promotion request replaces the accumulated set of dirty accounts where that set may be non-nil: the accounts of earlier, not yet served requests are dropped"))
+		}
+	}
+	if n == 0 {
+		c.Undecided(fname(sl)+"#dirty-set", sl.Pos(), "no place where an incoming request becomes the accumulated dirty set found in scheduleReorgLoop")
 	}
 }
